@@ -2,6 +2,12 @@
 import GemVerif.Lemmas.Gemini
 import Mathlib.Algebra.BigOperators.Group.Finset.Basic
 import Mathlib.Logic.Equiv.Fintype
+import Mathlib.Analysis.SpecialFunctions.Log.Basic
+import Mathlib.Analysis.SpecialFunctions.Sqrt
+import Mathlib.Tactic.Ring
+import Mathlib.Tactic.FieldSimp
+import Mathlib.Tactic.Linarith
+import Mathlib.Tactic.Positivity
 
 -- the proof scripts below are uniform across the `ovo` cases; some simp arguments are unused in some cases
 set_option linter.unusedSimpArgs false
@@ -9,9 +15,9 @@ set_option linter.unnecessarySeqFocus false
 set_option linter.unreachableTactic false
 set_option linter.unusedTactic false
 
-namespace GemVerif
+namespace GemVerif.C13
 open scoped BigOperators
-open Model Spec
+open GemVerif Model Spec
 
 variable {n K : ℕ}
 
@@ -257,4 +263,486 @@ theorem mmdGrad_cperm (ε : ℝ) (ovo : Bool) (P : Fin n → Fin K → ℝ) (κ 
       sumFin_eq_sum, Bool.false_eq_true, if_false, if_true] <;>
   (generalize clipP ε P = p; perm_tac τ)
 
-end GemVerif
+/-! ### Spec-level bounds -/
+
+theorem KL_nonneg {p q : Fin n → ℝ} (hp : ∀ i, 0 ≤ p i) (hp1 : ∑ i, p i = 1)
+    (hq : ∀ i, 0 < q i) (hq1 : ∑ i, q i = 1) : 0 ≤ Spec.KL p q := by
+  have key : ∀ i, p i - q i ≤ p i * Real.log (p i / q i) := by
+    intro i
+    rcases (hp i).eq_or_lt with h | h
+    · rw [← h]; simp [(hq i).le]
+    · have hx : 0 < q i / p i := div_pos (hq i) h
+      have h1 := Real.log_le_sub_one_of_pos hx
+      have h2 : Real.log (q i / p i) = - Real.log (p i / q i) := by
+        rw [← Real.log_inv, inv_div]
+      rw [h2] at h1
+      have h3 : p i * (-(Real.log (p i / q i))) ≤ p i * (q i / p i - 1) :=
+        mul_le_mul_of_nonneg_left h1 h.le
+      have h4 : p i * (q i / p i - 1) = q i - p i := by field_simp
+      linarith
+  have : ∑ i, (p i - q i) ≤ ∑ i, p i * Real.log (p i / q i) :=
+    Finset.sum_le_sum fun i _ => key i
+  rw [Finset.sum_sub_distrib, hp1, hq1] at this
+  simpa [Spec.KL] using this
+
+theorem TV_nonneg (p q : Fin n → ℝ) : 0 ≤ Spec.TV p q := by
+  unfold Spec.TV
+  have : 0 ≤ ∑ i, |p i - q i| := Finset.sum_nonneg fun i _ => abs_nonneg _
+  linarith
+
+theorem TV_le_one {p q : Fin n → ℝ} (hp : ∀ i, 0 ≤ p i) (hp1 : ∑ i, p i = 1)
+    (hq : ∀ i, 0 ≤ q i) (hq1 : ∑ i, q i = 1) : Spec.TV p q ≤ 1 := by
+  unfold Spec.TV
+  have : ∑ i, |p i - q i| ≤ ∑ i, (p i + q i) :=
+    Finset.sum_le_sum fun i _ => by
+      rw [abs_le]; constructor <;> linarith [hp i, hq i]
+  rw [Finset.sum_add_distrib, hp1, hq1] at this
+  linarith
+
+theorem sum_sqrt_mul_le_one {p q : Fin n → ℝ} (hp : ∀ i, 0 ≤ p i) (hp1 : ∑ i, p i = 1)
+    (hq : ∀ i, 0 ≤ q i) (hq1 : ∑ i, q i = 1) : ∑ i, Real.sqrt (p i * q i) ≤ 1 := by
+  have : ∑ i, Real.sqrt (p i * q i) ≤ ∑ i, (p i + q i) / 2 :=
+    Finset.sum_le_sum fun i _ => by
+      rw [Real.sqrt_le_left (by linarith [hp i, hq i])]
+      nlinarith [sq_nonneg (p i - q i)]
+  rw [← Finset.sum_div, Finset.sum_add_distrib, hp1, hq1] at this
+  linarith
+
+theorem H2_nonneg {p q : Fin n → ℝ} (hp : ∀ i, 0 ≤ p i) (hp1 : ∑ i, p i = 1)
+    (hq : ∀ i, 0 ≤ q i) (hq1 : ∑ i, q i = 1) : 0 ≤ Spec.H2 p q := by
+  unfold Spec.H2
+  linarith [sum_sqrt_mul_le_one hp hp1 hq hq1]
+
+theorem H2_le_one (p q : Fin n → ℝ) : Spec.H2 p q ≤ 1 := by
+  unfold Spec.H2
+  have : 0 ≤ ∑ i, Real.sqrt (p i * q i) := Finset.sum_nonneg fun i _ => Real.sqrt_nonneg _
+  linarith
+
+theorem chi2_nonneg {p q : Fin n → ℝ} (hq : ∀ i, 0 ≤ q i) : 0 ≤ Spec.chi2 p q :=
+  Finset.sum_nonneg fun i _ => div_nonneg (sq_nonneg _) (hq i)
+
+theorem MMD_nonneg (κ : Fin n → Fin n → ℝ) (p q : Fin n → ℝ) : 0 ≤ Spec.MMD κ p q :=
+  Real.sqrt_nonneg _
+
+theorem pi_nonneg {P : Fin n → Fin K → ℝ} (hP : ∀ i k, 0 ≤ P i k) (k : Fin K) : 0 ≤ Spec.pi P k :=
+  div_nonneg (Finset.sum_nonneg fun i _ => hP i k) (Nat.cast_nonneg n)
+
+theorem pi_pos' (hn : 0 < n) {P : Fin n → Fin K → ℝ} (hP : ∀ i k, 0 < P i k) (k : Fin K) :
+    0 < Spec.pi P k := by
+  have : Nonempty (Fin n) := ⟨⟨0, hn⟩⟩
+  exact div_pos (Finset.sum_pos (fun i _ => hP i k) Finset.univ_nonempty) (by exact_mod_cast hn)
+
+theorem pi_zero_of_n (P : Fin 0 → Fin K → ℝ) (k : Fin K) : Spec.pi P k = 0 := by
+  simp [Spec.pi]
+
+theorem cond_pos' (hn : 0 < n) {P : Fin n → Fin K → ℝ} (hP : ∀ i k, 0 < P i k) (k : Fin K) (i : Fin n) :
+    0 < Spec.cond P k i :=
+  div_pos (hP i k) (mul_pos (by exact_mod_cast hn) (pi_pos' hn hP k))
+
+theorem cond_sum' (hn : 0 < n) {P : Fin n → Fin K → ℝ} (hP : ∀ i k, 0 < P i k) (k : Fin K) :
+    ∑ i, Spec.cond P k i = 1 := by
+  have hnR : (0 : ℝ) < n := by exact_mod_cast hn
+  have hπ := pi_pos' hn hP k
+  simp only [Spec.cond]
+  rw [← Finset.sum_div]
+  have : ∑ i, P i k = n * Spec.pi P k := by unfold Spec.pi; field_simp
+  rw [this]
+  exact div_self (mul_pos hnR hπ).ne'
+
+theorem unif_pos' (hn : 0 < n) (i : Fin n) : 0 < Spec.unif n i := by
+  have hnR : (0 : ℝ) < n := by exact_mod_cast hn
+  simp only [Spec.unif]; positivity
+
+theorem unif_sum' (hn : 0 < n) : ∑ i, Spec.unif n i = 1 := by
+  have hnR : (0 : ℝ) < n := by exact_mod_cast hn
+  simp [Spec.unif, hnR.ne']
+
+theorem sum_pi' (hn : 0 < n) {P : Fin n → Fin K → ℝ} (hrow : ∀ i, ∑ k, P i k = 1) :
+    ∑ k, Spec.pi P k = 1 := by
+  have hnR : (0 : ℝ) < n := by exact_mod_cast hn
+  simp only [Spec.pi]
+  rw [← Finset.sum_div, Finset.sum_comm]
+  simp [hrow, hnR.ne']
+
+/-- The hypotheses under which the bounds on a distance `D` are stated: first argument a
+    probability vector, second argument a positive probability vector. -/
+def BoundedBelow (D : (Fin n → ℝ) → (Fin n → ℝ) → ℝ) : Prop :=
+  ∀ p q : Fin n → ℝ, (∀ i, 0 < p i) → ∑ i, p i = 1 → (∀ i, 0 < q i) → ∑ i, q i = 1 → 0 ≤ D p q
+
+def BoundedAbove (D : (Fin n → ℝ) → (Fin n → ℝ) → ℝ) : Prop :=
+  ∀ p q : Fin n → ℝ, (∀ i, 0 < p i) → ∑ i, p i = 1 → (∀ i, 0 < q i) → ∑ i, q i = 1 → D p q ≤ 1
+
+theorem ova_nonneg_of {D : (Fin n → ℝ) → (Fin n → ℝ) → ℝ} (hD : BoundedBelow D)
+    {P : Fin n → Fin K → ℝ} (hP : ∀ i k, 0 < P i k) : 0 ≤ Spec.ova D P := by
+  rcases Nat.eq_zero_or_pos n with rfl | hn
+  · simp [Spec.ova, pi_zero_of_n]
+  · exact Finset.sum_nonneg fun k _ => mul_nonneg (pi_pos' hn hP k).le
+      (hD _ _ (cond_pos' hn hP k) (cond_sum' hn hP k) (unif_pos' hn) (unif_sum' hn))
+
+theorem ovo_nonneg_of {D : (Fin n → ℝ) → (Fin n → ℝ) → ℝ} (hD : BoundedBelow D)
+    {P : Fin n → Fin K → ℝ} (hP : ∀ i k, 0 < P i k) : 0 ≤ Spec.ovo D P := by
+  rcases Nat.eq_zero_or_pos n with rfl | hn
+  · simp [Spec.ovo, pi_zero_of_n]
+  · exact Finset.sum_nonneg fun a _ => Finset.sum_nonneg fun b _ =>
+      mul_nonneg (mul_nonneg (pi_pos' hn hP a).le (pi_pos' hn hP b).le)
+      (hD _ _ (cond_pos' hn hP a) (cond_sum' hn hP a) (cond_pos' hn hP b) (cond_sum' hn hP b))
+
+theorem ova_le_one_of {D : (Fin n → ℝ) → (Fin n → ℝ) → ℝ} (hD : BoundedAbove D)
+    {P : Fin n → Fin K → ℝ} (hP : ∀ i k, 0 < P i k) (hrow : ∀ i, ∑ k, P i k = 1) :
+    Spec.ova D P ≤ 1 := by
+  rcases Nat.eq_zero_or_pos n with rfl | hn
+  · simp [Spec.ova, pi_zero_of_n]
+  · calc Spec.ova D P ≤ ∑ k, Spec.pi P k * 1 :=
+          Finset.sum_le_sum fun k _ => mul_le_mul_of_nonneg_left
+            (hD _ _ (cond_pos' hn hP k) (cond_sum' hn hP k) (unif_pos' hn) (unif_sum' hn))
+            (pi_pos' hn hP k).le
+      _ = 1 := by simp [sum_pi' hn hrow]
+
+theorem ovo_le_one_of {D : (Fin n → ℝ) → (Fin n → ℝ) → ℝ} (hD : BoundedAbove D)
+    {P : Fin n → Fin K → ℝ} (hP : ∀ i k, 0 < P i k) (hrow : ∀ i, ∑ k, P i k = 1) :
+    Spec.ovo D P ≤ 1 := by
+  rcases Nat.eq_zero_or_pos n with rfl | hn
+  · simp [Spec.ovo, pi_zero_of_n]
+  · calc Spec.ovo D P ≤ ∑ a, ∑ b, Spec.pi P a * Spec.pi P b * 1 :=
+          Finset.sum_le_sum fun a _ => Finset.sum_le_sum fun b _ => mul_le_mul_of_nonneg_left
+            (hD _ _ (cond_pos' hn hP a) (cond_sum' hn hP a) (cond_pos' hn hP b) (cond_sum' hn hP b))
+            (mul_nonneg (pi_pos' hn hP a).le (pi_pos' hn hP b).le)
+      _ = (∑ a, Spec.pi P a) * ∑ b, Spec.pi P b := by
+          simp only [mul_one]; rw [Finset.sum_mul_sum]
+      _ = 1 := by simp [sum_pi' hn hrow]
+
+/-! ### Predictions that do not depend on the sample -/
+
+theorem clipP_indep {ε : ℝ} {P : Fin n → Fin K → ℝ} (h : ∀ i j k, P i k = P j k) :
+    ∀ i j k, clipP ε P i k = clipP ε P j k := by
+  intro i j k; simp only [clipP]; rw [h i j k]
+
+theorem indep_eq_const (hn : 0 < n) {p : Fin n → Fin K → ℝ} (h : ∀ i j k, p i k = p j k) :
+    p = fun _ k => p ⟨0, hn⟩ k := by
+  funext i k; exact h i _ k
+
+theorem mean0_const (hn : 0 < n) (c : Fin K → ℝ) : mean0 (fun (_ : Fin n) k => c k) = c := by
+  have hnR : (n : ℝ) ≠ 0 := by exact_mod_cast hn.ne'
+  funext k; simp [mean0, hnR]
+
+theorem meanV_const (hn : 0 < n) (x : ℝ) : meanV (fun _ : Fin n => x) = x := by
+  have hnR : (n : ℝ) ≠ 0 := by exact_mod_cast hn.ne'
+  simp [meanV, hnR]
+
+theorem klScore_indep (ε : ℝ) (ovo : Bool) {P : Fin n → Fin K → ℝ} (h : ∀ i j k, P i k = P j k) :
+    klScore ε ovo P = 0 := by
+  rcases Nat.eq_zero_or_pos n with rfl | hn
+  · cases ovo <;> simp [klScore, mean0, meanV]
+  · cases ovo <;>
+    · simp only [klScore]
+      rw [indep_eq_const hn (clipP_indep (ε := ε) h)]
+      generalize clipP ε P ⟨0, hn⟩ = c
+      simp [mean0_const hn, meanV_const hn]
+
+theorem tvScore_indep (ε : ℝ) (ovo : Bool) {P : Fin n → Fin K → ℝ} (h : ∀ i j k, P i k = P j k) :
+    tvScore ε ovo P = 0 := by
+  rcases Nat.eq_zero_or_pos n with rfl | hn
+  · cases ovo <;> simp [tvScore, mean0, meanV]
+  · cases ovo <;>
+    · simp only [tvScore]
+      rw [indep_eq_const hn (clipP_indep (ε := ε) h)]
+      generalize clipP ε P ⟨0, hn⟩ = c
+      have hc : ∀ a b, c a * c b - c b * c a = 0 := fun a b => by ring
+      simp [mean0_const hn, meanV_const hn, hc]
+
+theorem hellingerScore_indep (hn : 0 < n) {ε : ℝ} (hε : 0 ≤ ε) (ovo : Bool) {P : Fin n → Fin K → ℝ}
+    (hI : Interior ε P) (hrow : ∀ i, ∑ k, P i k = 1) (h : ∀ i j k, P i k = P j k) :
+    hellingerScore ε ovo P = 0 := by
+  have hc0 : ∀ k, 0 ≤ P ⟨0, hn⟩ k := fun k => le_trans hε (hI _ k).1.le
+  have hs : ∑ k, P ⟨0, hn⟩ k = 1 := hrow _
+  cases ovo <;>
+  · simp only [hellingerScore, clipP_of_interior hI]
+    rw [indep_eq_const hn h]
+    generalize P ⟨0, hn⟩ = c at hc0 hs
+    simp [mean0_const hn, meanV_const hn, Real.sqrt_mul_self (hc0 _), hs, RealLike.sq]
+
+theorem chi2Score_indep (hn : 0 < n) {ε : ℝ} (hε : 0 ≤ ε) (ovo : Bool) {P : Fin n → Fin K → ℝ}
+    (hI : Interior ε P) (hrow : ∀ i, ∑ k, P i k = 1) (h : ∀ i j k, P i k = P j k) :
+    chi2Score ε ovo P = 1 / 2 := by
+  have hc0 : ∀ k, P ⟨0, hn⟩ k ≠ 0 := fun k => (lt_of_le_of_lt hε (hI _ k).1).ne'
+  have hs : ∑ k, P ⟨0, hn⟩ k = 1 := hrow _
+  cases ovo <;>
+  · simp only [chi2Score, clipP_of_interior hI]
+    rw [indep_eq_const hn h]
+    generalize P ⟨0, hn⟩ = c at hc0 hs
+    simp [mean0_const hn, meanV_const hn, hc0, hs]
+
+theorem mmdScore_indep (ε : ℝ) (ovo : Bool) {P : Fin n → Fin K → ℝ} (κ : Fin n → Fin n → ℝ)
+    (h : ∀ i j k, P i k = P j k) :
+    mmdScore ε ovo P κ = 0 := by
+  rcases Nat.eq_zero_or_pos n with rfl | hn
+  · cases ovo <;> simp [mmdScore, mean0]
+  · cases ovo
+    · simp only [mmdScore, mmdDeltaOva, mmdGamma, mmdAlpha]
+      rw [indep_eq_const hn (clipP_indep (ε := ε) h)]
+      generalize clipP ε P ⟨0, hn⟩ = c
+      simp only [mean0_const hn, tab_apply, tab2_apply, sumFin_eq_sum, Bool.false_eq_true, if_false]
+      refine Finset.sum_eq_zero fun k _ => ?_
+      by_cases hk : c k = 0
+      · simp [hk]
+      · have : c k / c k = 1 := div_self hk
+        simp only [this, mul_one, one_mul]
+        rw [show ∀ x : ℝ, x + x - RealLike.nat 2 * x = 0 from fun x => by simp; ring]
+        simp
+    · simp only [mmdScore, mmdDeltaOvo, mmdGamma, mmdAlpha]
+      rw [indep_eq_const hn (clipP_indep (ε := ε) h)]
+      generalize clipP ε P ⟨0, hn⟩ = c
+      simp only [mean0_const hn, tab_apply, tab2_apply, sumFin_eq_sum, if_true]
+      refine Finset.sum_eq_zero fun b _ => ?_
+      by_cases hb : c b = 0
+      · simp [hb]
+      · have h1 : c b / c b = 1 := div_self hb
+        rw [Finset.sum_eq_zero, zero_mul]
+        intro a _
+        by_cases ha : c a = 0
+        · simp [ha]
+        · have h2 : c a / c a = 1 := div_self ha
+          simp only [h1, h2, mul_one, one_mul]
+          rw [show ∀ x : ℝ, -RealLike.nat 2 * x + x + x = 0 from fun x => by simp; ring]
+          simp
+
+/-! ### Balanced hard partition -/
+
+theorem mi_balanced (hn : 0 < n) (hK : 0 < K) (hdvd : K ∣ n) (lab : Fin n → Fin K)
+    (hbal : ∀ k, (Finset.univ.filter (fun i => lab i = k)).card = n / K) :
+    Spec.ova Spec.KL (fun i k => if lab i = k then (1:ℝ) else 0) = Real.log K := by
+  obtain ⟨m, rfl⟩ := hdvd
+  have hm : 0 < m := Nat.pos_of_mul_pos_left hn
+  have hdiv : K * m / K = m := Nat.mul_div_cancel_left m hK
+  simp only [hdiv] at hbal
+  have hKR : (0 : ℝ) < K := by exact_mod_cast hK
+  have hmR : (0 : ℝ) < m := by exact_mod_cast hm
+  have hsum : ∀ k, ∑ i, (if lab i = k then (1:ℝ) else 0) = m := by
+    intro k; rw [Finset.sum_boole, hbal k]
+  have hpi : ∀ k, Spec.pi (fun i k => if lab i = k then (1:ℝ) else 0) k = 1 / K := by
+    intro k; simp only [Spec.pi, hsum]; push_cast; field_simp
+  simp only [Spec.ova, hpi, Spec.KL, Spec.cond, Spec.unif]
+  have hterm : ∀ k, ∑ i, (if lab i = k then (1:ℝ) else 0) / (↑(K*m) * (1/(K:ℝ))) *
+      Real.log ((if lab i = k then (1:ℝ) else 0) / (↑(K*m) * (1/(K:ℝ))) / (1 / ↑(K*m))) = Real.log K := by
+    intro k
+    have h1 : ∀ i, (if lab i = k then (1:ℝ) else 0) / (↑(K*m) * (1/(K:ℝ))) *
+      Real.log ((if lab i = k then (1:ℝ) else 0) / (↑(K*m) * (1/(K:ℝ))) / (1 / ↑(K*m)))
+        = (if lab i = k then (1:ℝ) else 0) * (Real.log K / m) := by
+      intro i
+      split_ifs
+      · have : (1:ℝ) / (↑(K*m) * (1/(K:ℝ))) / (1 / ↑(K*m)) = K := by push_cast; field_simp
+        rw [this]; push_cast; field_simp
+      · simp
+    simp_rw [h1]
+    rw [← Finset.sum_mul, hsum]; field_simp
+  simp_rw [hterm]
+  simp; field_simp
+
+/-! ### Appending an empty cluster -/
+
+/-- `P` with an extra last column of zeros (an empty cluster). -/
+def addEmpty (P : Fin n → Fin K → ℝ) : Fin n → Fin (K + 1) → ℝ := fun i => Fin.snoc (P i) 0
+
+@[simp] theorem addEmpty_castSucc (P : Fin n → Fin K → ℝ) (i : Fin n) (k : Fin K) :
+    addEmpty P i k.castSucc = P i k := by simp [addEmpty]
+
+@[simp] theorem addEmpty_last (P : Fin n → Fin K → ℝ) (i : Fin n) :
+    addEmpty P i (Fin.last K) = 0 := by simp [addEmpty]
+
+theorem clipP_addEmpty_castSucc (ε : ℝ) (P : Fin n → Fin K → ℝ) (i : Fin n) (k : Fin K) :
+    clipP ε (addEmpty P) i k.castSucc = clipP ε P i k := by simp [clipP]
+
+theorem clipP_addEmpty_last (ε : ℝ) (P : Fin n → Fin K → ℝ) (i : Fin n) :
+    clipP ε (addEmpty P) i (Fin.last K) = RealLike.clip 0 ε (1 - ε) := by simp [clipP]
+
+theorem mean0_addEmpty_castSucc (ε : ℝ) (P : Fin n → Fin K → ℝ) (k : Fin K) :
+    mean0 (clipP ε (addEmpty P)) k.castSucc = mean0 (clipP ε P) k := by
+  simp [mean0, clipP_addEmpty_castSucc]
+
+theorem mean0_addEmpty_last (hn : 0 < n) (ε : ℝ) (P : Fin n → Fin K → ℝ) :
+    mean0 (clipP ε (addEmpty P)) (Fin.last K) = RealLike.clip 0 ε (1 - ε) := by
+  have hnR : (n : ℝ) ≠ 0 := by exact_mod_cast hn.ne'
+  simp [mean0, clipP_addEmpty_last, hnR]
+
+theorem clipMask_addEmpty_last {ε : ℝ} (hε : 0 ≤ ε) (P : Fin n → Fin K → ℝ) (i : Fin n) :
+    clipMask ε (addEmpty P) i (Fin.last K) = 0 := by
+  simp [clipMask, RealLike.ofBool, not_lt.mpr hε]
+
+theorem klScore_addEmpty (ε : ℝ) (ovo : Bool) (P : Fin n → Fin K → ℝ) :
+    klScore ε ovo (addEmpty P) = klScore ε ovo P := by
+  rcases Nat.eq_zero_or_pos n with rfl | hn
+  · cases ovo <;> simp [klScore, mean0, meanV]
+  · cases ovo <;>
+    simp [klScore, Fin.sum_univ_castSucc, clipP_addEmpty_castSucc, clipP_addEmpty_last,
+      mean0_addEmpty_castSucc, mean0_addEmpty_last hn, meanV_const hn]
+
+theorem tvScore_ova_addEmpty (ε : ℝ) (P : Fin n → Fin K → ℝ) :
+    tvScore ε false (addEmpty P) = tvScore ε false P := by
+  rcases Nat.eq_zero_or_pos n with rfl | hn
+  · simp [tvScore, mean0, meanV]
+  · simp [tvScore, Fin.sum_univ_castSucc, clipP_addEmpty_castSucc, clipP_addEmpty_last,
+      mean0_addEmpty_castSucc, mean0_addEmpty_last hn, meanV_const hn]
+
+theorem clip_zero {ε : ℝ} (h0 : 0 ≤ ε) (h1 : ε ≤ 1 / 2) : RealLike.clip 0 ε (1 - ε) = ε := by
+  rw [RealLike.clip_real, max_eq_right h0, min_eq_left (by linarith)]
+
+theorem hellingerScore_ova_addEmpty (hn : 0 < n) {ε : ℝ} (h0 : 0 ≤ ε) (h1 : ε ≤ 1 / 2)
+    (P : Fin n → Fin K → ℝ) :
+    hellingerScore ε false (addEmpty P) = hellingerScore ε false P - ε := by
+  have hnR : (n : ℝ) ≠ 0 := by exact_mod_cast hn.ne'
+  simp only [hellingerScore, Fin.sum_univ_castSucc, clipP_addEmpty_castSucc, clipP_addEmpty_last,
+      mean0_addEmpty_castSucc, mean0_addEmpty_last hn, clip_zero h0 h1, tab_apply, meanV_eq,
+      sumFin_eq_sum, Bool.false_eq_true, if_false, RealLike.sqrt_real, Real.sqrt_mul_self h0,
+      Finset.sum_add_distrib, Finset.sum_const, Finset.card_univ, Fintype.card_fin, nsmul_eq_mul]
+  field_simp
+  ring
+
+theorem chi2Score_ova_addEmpty (hn : 0 < n) {ε : ℝ} (h0 : 0 < ε) (h1 : ε ≤ 1 / 2)
+    (P : Fin n → Fin K → ℝ) :
+    chi2Score ε false (addEmpty P) = chi2Score ε false P + ε / 2 := by
+  have hnR : (n : ℝ) ≠ 0 := by exact_mod_cast hn.ne'
+  simp only [chi2Score, Fin.sum_univ_castSucc, clipP_addEmpty_castSucc, clipP_addEmpty_last,
+      mean0_addEmpty_castSucc, mean0_addEmpty_last hn, clip_zero h0.le h1, tab_apply, meanV_eq,
+      sumFin_eq_sum, Bool.false_eq_true, if_false, div_self h0.ne', mul_one, RealLike.half_real,
+      Finset.sum_add_distrib, Finset.sum_const, Finset.card_univ, Fintype.card_fin, nsmul_eq_mul]
+  field_simp
+
+theorem tvScore_ovo_addEmpty {ε : ℝ} (h0 : 0 ≤ ε) (h1 : ε ≤ 1 / 2) (P : Fin n → Fin K → ℝ) :
+    tvScore ε true (addEmpty P) = tvScore ε true P + 2 * ε * tvScore ε false P := by
+  rcases Nat.eq_zero_or_pos n with rfl | hn
+  · simp [tvScore, mean0, meanV]
+  · have hnR : (n : ℝ) ≠ 0 := by exact_mod_cast hn.ne'
+    have e1 : ∀ x y : ℝ, |x * ε - ε * y| = ε * |y - x| := fun x y => by
+      rw [show x * ε - ε * y = ε * (x - y) by ring, abs_mul, abs_of_nonneg h0, abs_sub_comm]
+    have e2 : ∀ x y : ℝ, |ε * y - x * ε| = ε * |y - x| := fun x y => by
+      rw [show ε * y - x * ε = ε * (y - x) by ring, abs_mul, abs_of_nonneg h0]
+    simp only [tvScore, Fin.sum_univ_castSucc, clipP_addEmpty_castSucc, clipP_addEmpty_last,
+      mean0_addEmpty_castSucc, mean0_addEmpty_last hn, clip_zero h0 h1, tab_apply, meanV_eq,
+      sumFin_eq_sum, Bool.false_eq_true, if_false, if_true, RealLike.abs_real, RealLike.half_real,
+      e1, e2, sub_self, abs_zero, Finset.sum_const_zero, zero_div, add_zero,
+      Finset.sum_add_distrib, ← Finset.mul_sum, ← Finset.sum_div, mul_div_assoc]
+    ring
+
+theorem mmdScore_ova_addEmpty (ε : ℝ) (P : Fin n → Fin K → ℝ) (κ : Fin n → Fin n → ℝ) :
+    mmdScore ε false (addEmpty P) κ = mmdScore ε false P κ := by
+  rcases Nat.eq_zero_or_pos n with rfl | hn
+  · simp [mmdScore, mean0]
+  · simp only [mmdScore, mmdDeltaOva, mmdGamma, mmdAlpha, tab_apply, tab2_apply, sumFin_eq_sum,
+      Bool.false_eq_true, if_false, Fin.sum_univ_castSucc, clipP_addEmpty_castSucc,
+      clipP_addEmpty_last, mean0_addEmpty_castSucc, mean0_addEmpty_last hn]
+    generalize RealLike.clip 0 ε (1 - ε) = e
+    rw [add_eq_left]
+    by_cases he : e = 0
+    · simp [he]
+    · simp only [div_self he, mul_one, one_mul]
+      rw [show ∀ x : ℝ, x + x - RealLike.nat 2 * x = 0 from fun x => by simp; ring]
+      simp
+
+theorem hellingerScore_ovo_addEmpty (hn : 0 < n) {ε : ℝ} (h0 : 0 ≤ ε) (h1 : ε ≤ 1 / 2)
+    (P : Fin n → Fin K → ℝ) :
+    hellingerScore ε true (addEmpty P)
+      = hellingerScore ε true P - 2 * ε * (1 - hellingerScore ε false P) - ε ^ 2 := by
+  have hnR : (n : ℝ) ≠ 0 := by exact_mod_cast hn.ne'
+  simp only [hellingerScore, Fin.sum_univ_castSucc, clipP_addEmpty_castSucc, clipP_addEmpty_last,
+      mean0_addEmpty_castSucc, mean0_addEmpty_last hn, clip_zero h0 h1, tab_apply, meanV_eq,
+      sumFin_eq_sum, Bool.false_eq_true, if_false, if_true, RealLike.sqrt_real, Real.sqrt_mul_self h0,
+      RealLike.sq_real, add_sq, Finset.sum_add_distrib, Finset.sum_const, Finset.card_univ,
+      Fintype.card_fin, nsmul_eq_mul, ← Finset.sum_mul, ← Finset.mul_sum]
+  field_simp
+  ring
+
+theorem chi2Score_ovo_addEmpty (hn : 0 < n) {ε : ℝ} (h0 : 0 < ε) (h1 : ε ≤ 1 / 2)
+    (P : Fin n → Fin K → ℝ) :
+    chi2Score ε true (addEmpty P)
+      = chi2Score ε true P + ε * chi2Score ε false P
+        + ε / 2 * meanV (fun i => sumFin fun k =>
+            mean0 (clipP ε P) k / (clipP ε P i k / mean0 (clipP ε P) k))
+        + ε ^ 2 / 2 := by
+  have hnR : (n : ℝ) ≠ 0 := by exact_mod_cast hn.ne'
+  simp only [chi2Score, Fin.sum_univ_castSucc, clipP_addEmpty_castSucc, clipP_addEmpty_last,
+      mean0_addEmpty_castSucc, mean0_addEmpty_last hn, clip_zero h0.le h1, tab_apply, meanV_eq,
+      sumFin_eq_sum, Bool.false_eq_true, if_false, if_true, div_self h0.ne', mul_one, div_one,
+      RealLike.half_real, add_mul, mul_add, Finset.sum_add_distrib, Finset.sum_const, Finset.card_univ,
+      Fintype.card_fin, nsmul_eq_mul, ← Finset.sum_mul, ← Finset.mul_sum]
+  field_simp
+  ring
+
+theorem mmdScore_ovo_addEmpty {ε : ℝ} (h0 : 0 ≤ ε) (h1 : ε ≤ 1 / 2)
+    (P : Fin n → Fin K → ℝ) (κ : Fin n → Fin n → ℝ) (hκ : ∀ i j, κ i j = κ j i) :
+    mmdScore ε true (addEmpty P) κ = mmdScore ε true P κ + 2 * ε * mmdScore ε false P κ := by
+  rcases Nat.eq_zero_or_pos n with rfl | hn
+  · simp [mmdScore, mean0]
+  · simp only [mmdScore, mmdDeltaOvo, mmdDeltaOva, mmdGamma, mmdAlpha, tab_apply, tab2_apply, sumFin_eq_sum,
+      Bool.false_eq_true, if_false, if_true, Fin.sum_univ_castSucc, clipP_addEmpty_castSucc,
+      clipP_addEmpty_last, mean0_addEmpty_castSucc, mean0_addEmpty_last hn, clip_zero h0 h1]
+    rcases h0.eq_or_lt with rfl | hpos
+    · simp
+    · simp only [div_self hpos.ne', mul_one, one_mul]
+      generalize clipP ε P = p
+      generalize mean0 p = py
+      have h6 : ∀ s : ℝ, -RealLike.nat 2 * s + s + s = 0 := fun s => by simp; ring
+      have h2 : ∀ f : Fin n → ℝ, ∑ i, f i * ∑ j, κ i j / (RealLike.nat n * RealLike.nat n)
+          = ∑ i, ∑ j, κ i j / (RealLike.nat n * RealLike.nat n) * f j := fun f => by
+        simp only [Finset.mul_sum]
+        rw [Finset.sum_comm]
+        refine Finset.sum_congr rfl fun i _ => Finset.sum_congr rfl fun j _ => ?_
+        rw [hκ j i]; ring
+      have h4 : ∀ a b c : ℝ, a + b - RealLike.nat 2 * c = -RealLike.nat 2 * c + a + b :=
+        fun a b c => by ring
+      simp only [h6, h2, h4, max_self, RealLike.max_real, RealLike.sqrt_real, Real.sqrt_zero, mul_zero, add_zero]
+      generalize (∑ x, ∑ x_1, κ x x_1 / (RealLike.nat n * RealLike.nat n)) = S
+      have h5 : ∀ t o : ℝ, -RealLike.nat 2 * t + S + o = -RealLike.nat 2 * t + o + S :=
+        fun t o => by ring
+      simp only [h5]
+      rw [Finset.mul_sum, Finset.sum_mul, ← Finset.sum_add_distrib, ← Finset.sum_add_distrib]
+      refine Finset.sum_congr rfl fun x _ => ?_
+      ring
+
+/-- The gradient column of an appended empty cluster is zero (its mask is zero). -/
+theorem klGrad_addEmpty_last {ε : ℝ} (hε : 0 ≤ ε) (ovo : Bool) (P : Fin n → Fin K → ℝ) (i : Fin n) :
+    klGrad ε ovo (addEmpty P) i (Fin.last K) = 0 := by
+  simp only [klGrad, clipMask_addEmpty_last hε, mul_zero]
+
+theorem tvGrad_addEmpty_last {ε : ℝ} (hε : 0 ≤ ε) (ovo : Bool) (P : Fin n → Fin K → ℝ) (i : Fin n) :
+    tvGrad ε ovo (addEmpty P) i (Fin.last K) = 0 := by
+  cases ovo <;> simp only [tvGrad, clipMask_addEmpty_last hε, mul_zero, Bool.false_eq_true, if_false, if_true]
+
+theorem hellingerGrad_addEmpty_last {ε : ℝ} (hε : 0 ≤ ε) (ovo : Bool) (P : Fin n → Fin K → ℝ) (i : Fin n) :
+    hellingerGrad ε ovo (addEmpty P) i (Fin.last K) = 0 := by
+  cases ovo <;>
+  simp only [hellingerGrad, clipMask_addEmpty_last hε, mul_zero, Bool.false_eq_true, if_false, if_true]
+
+theorem chi2Grad_addEmpty_last {ε : ℝ} (hε : 0 ≤ ε) (ovo : Bool) (P : Fin n → Fin K → ℝ) (i : Fin n) :
+    chi2Grad ε ovo (addEmpty P) i (Fin.last K) = 0 := by
+  cases ovo <;>
+  simp only [chi2Grad, clipMask_addEmpty_last hε, mul_zero, Bool.false_eq_true, if_false, if_true]
+
+theorem mmdGrad_addEmpty_last {ε : ℝ} (hε : 0 ≤ ε) (ovo : Bool) (P : Fin n → Fin K → ℝ)
+    (κ : Fin n → Fin n → ℝ) (i : Fin n) :
+    mmdGrad ε ovo (addEmpty P) κ i (Fin.last K) = 0 := by
+  cases ovo <;>
+  simp only [mmdGrad, clipMask_addEmpty_last hε, mul_zero, Bool.false_eq_true, if_false, if_true]
+
+/-! ### Guards on the closed simplex -/
+
+theorem clipP_mem {ε : ℝ} (h1 : ε ≤ 1 / 2) (P : Fin n → Fin K → ℝ) (i : Fin n) (k : Fin K) :
+    ε ≤ clipP ε P i k ∧ clipP ε P i k ≤ 1 - ε := by
+  simp only [clipP, RealLike.clip_real]
+  refine ⟨le_min (le_max_right _ _) (by linarith), min_le_right _ _⟩
+
+theorem mean0_mem (hn : 0 < n) {ε : ℝ} {p : Fin n → Fin K → ℝ}
+    (hp : ∀ i k, ε ≤ p i k ∧ p i k ≤ 1 - ε) (k : Fin K) :
+    ε ≤ mean0 p k ∧ mean0 p k ≤ 1 - ε := by
+  have hnR : (0 : ℝ) < n := by exact_mod_cast hn
+  simp only [mean0, sumFin_eq_sum, RealLike.nat_real]
+  have hlo : (n : ℝ) * ε ≤ ∑ i, p i k := by
+    have := Finset.sum_le_sum (s := Finset.univ) fun i _ => (hp i k).1
+    simpa using this
+  have hhi : ∑ i, p i k ≤ (n : ℝ) * (1 - ε) := by
+    have := Finset.sum_le_sum (s := Finset.univ) fun i _ => (hp i k).2
+    simpa using this
+  constructor
+  · rw [le_div_iff₀ hnR]; linarith
+  · rw [div_le_iff₀ hnR]; linarith
+
+end GemVerif.C13
